@@ -12,6 +12,9 @@ Require Import Base.Bits Base.Iter Gen.Consts Gen.Types Gen.Preds Gen.DemuxGen M
 Import ListNotations.
 Open Scope Z_scope.
 
+(* two results that differ only in how a comparison is written (a >= b, b <= a) *)
+Ltac done_eq := try reflexivity; do 2 f_equal; lia.
+
 Section Psi.
 Variable W : Type.
 Variable get : W -> Z -> outcome (list Z * W).
@@ -21,7 +24,7 @@ Hypothesis get_length : forall w n, 0 <= n -> exists bs w', get w n = Done (bs, 
 
 Definition walk_result (w : W) (r : res (option iter)) : outcome (bool * W) :=
   match r with
-  | Ok (Some i') => Done (ilen i' >=? ioff i', w)
+  | Ok (Some i') => Done (ioff i' <=? ilen i', w)
   | Ok None => Done (false, w)
   | _ => Panicked
   end.
@@ -34,12 +37,12 @@ Proof.
   induction fuel as [|k IH]; intros b err f1 i l o payload ps w Hoff Hfuel; [lia|].
   cbn [isPSIComplete_loop1 psi_walk].
   destruct (ioff i <? ilen i) eqn:Hleft; cbn [negb].
-  2:{ cbn [walk_result]. repeat split; discriminate. }
+  2:{ cbn [walk_result]. split; [done_eq|split; discriminate]. }
   unfold it_NextByte. pose proof (next_byte_no_panic i Hoff) as Hnp.
   destruct (next_byte i) as [[b1 i1]|c|] eqn:Hnb; [|cbn; repeat split; discriminate|contradiction].
   apply next_byte_ok in Hnb. destruct Hnb as (Hr & Hbs1 & Hoff1 & _).
   cbn [obind is_some].
-  destruct (shouldStopPSIParsing b1); [cbn [walk_result]; repeat split; discriminate|].
+  destruct (shouldStopPSIParsing b1); [cbn [walk_result]; split; [done_eq|split; discriminate]|].
   unfold it_NextBytesNoCopy, next_bytes_nocopy.
   assert (Hoff1' : 0 <= ioff i1) by lia.
   pose proof (next_bytes_no_panic 2 i1 Hoff1' ltac:(lia)) as Hnp2.
@@ -84,7 +87,7 @@ Proof.
     + cbn [ioff]. lia.
     + unfold ilen. cbn [ibs ioff]. rewrite Hbs1. lia.
     + rewrite He. destruct (psi_walk (S (length payload)) _) as [[i'|]|c|]; cbn [walk_result].
-      * f_equal. f_equal. lia.
+      * reflexivity.
       * reflexivity.
       * exfalso. apply (Hne c). reflexivity.
       * contradiction.
